@@ -79,7 +79,7 @@ func checkSequenceL(c seqCase) (fs []vf.Finding, labels []string) {
 	tbl := nbtns.NewNetBIOSNameServer(c.Secured)
 	set := c.scanSet()
 	fail := func(f vf.Finding) ([]vf.Finding, []string) { return []vf.Finding{f}, nil }
-	var big, rescued, openSweep bool
+	var big, openSweep bool
 	cands := []state{{}}
 	var keptSlices []kept
 	for i, o := range c.Ops {
@@ -119,11 +119,9 @@ func checkSequenceL(c seqCase) (fs []vf.Finding, labels []string) {
 		if len(match) == 0 {
 			return fail(vf.F("NetBIOSNameServer."+o.Kind, "table-differs-from-atomic-map", "after step %d %s: scan %s, model %s; history: %s", i, o, got, next[0].visible(set), seqString(c.Ops[:i+1])))
 		}
-		switch prev := cands[0][o.Name]; {
+		switch {
 		case o.Kind == "reg" && len(match[0][o.Name].Owners) > 8:
 			big = true
-		case o.Kind == "refresh" && res.OK && prev.Exp != live && match[0][o.Name].Exp == live:
-			rescued = true
 		case o.Kind == "clean" && len(next) > 1:
 			openSweep = true
 		}
@@ -156,9 +154,6 @@ func checkSequenceL(c seqCase) (fs []vf.Finding, labels []string) {
 	if big {
 		labels = append(labels, "group-with-more-than-8-owners")
 	}
-	if rescued {
-		labels = append(labels, "refresh-moves-expiry-ahead")
-	}
 	if openSweep {
 		labels = append(labels, "sweep-with-undetermined-expiry")
 	}
@@ -169,19 +164,20 @@ func checkSequenceL(c seqCase) (fs []vf.Finding, labels []string) {
 // registration is a function of (name position, address): the first name never expires (address 0
 // registers it for 1000h, the others for 1h: an expiry much nearer than the record's refresh
 // interval is still ahead); the second name is registered 1h ahead by address 0 and 1h in the past
-// by the others (always expired at the next sweep, unless its creator's positive refresh interval
-// is applied by a refresh in between).
-func alphabet(pair [2]int, nIPs int) []op {
-	ttl := [2][]int{{3, 1, 1}, {1, 2, 2}}
+// by the second address (a table may refuse that as invalid input) and for one nanosecond by the third
+// (expired at the next sweep as long as only those two registered it; once registrations with TTLs
+// pointing both ways have met on the record, what a sweep does with it is left open).
+func alphabet(pair [2]int, ips []int) []op {
+	ttl := [2][]int{{3, 1, 1}, {1, 2, 4}}
 	var a []op
 	for pos, n := range pair {
 		for t := 0; t < 2; t++ {
-			for ip := 0; ip < nIPs; ip++ {
-				a = append(a, op{Kind: "reg", Name: n, Type: t, IP: ip, TTL: ttl[pos][ip%3]})
+			for i, ip := range ips {
+				a = append(a, op{Kind: "reg", Name: n, Type: t, IP: ip, TTL: ttl[pos][i%3]})
 			}
 		}
 		a = append(a, op{Kind: "query", Name: n})
-		for ip := 0; ip < nIPs; ip++ {
+		for _, ip := range ips {
 			a = append(a, op{Kind: "rel", Name: n, IP: ip}, op{Kind: "refresh", Name: n, IP: ip})
 		}
 		a = append(a, op{Kind: "conflict", Name: n})
@@ -236,31 +232,37 @@ func TestSeqExhaustive(t *testing.T) {
 	s.SetExhaustive()
 	depth := vf.Size(4, 5)
 	pairs := [][2]int{{0, 1}, {5, 6}, {6, 7}, {6, 8}}
-	s.Note("all sequences of length 1..%d over %d distinct calls (2 names x {Unique,Group} x 3 addresses, TTL by name and address) on an unsecured table; all of length 1..%d for both constructor values and %d name pairs (short names; 16-byte names differing only in the suffix byte, only in case, only in padding)", depth, len(alphabet(pairs[0], 3)), depth-1, len(pairs))
+	// other address triples: three distinct IPv6 owners; an IPv4 address, its IPv4-mapped 16-byte
+	// form (the same owner to net.IP.Equal) and an IPv6 address
+	otherIPs := [][]int{ipsV6, {0, 19, 16}}
+	s.Note("all sequences of length 1..%d over %d distinct calls (2 names x {Unique,Group} x 3 addresses, TTL by name and address) on an unsecured table; all of length 1..%d for both constructor values and %d name pairs (short names; 16-byte names differing only in the suffix byte, only in case, only in padding) and for %d further address triples (IPv6 owners; IPv4, IPv4-mapped and IPv6)", depth, len(alphabet(pairs[0], ipsV4)), depth-1, len(pairs), len(otherIPs))
 	vf.Enum(s, func(yield func(seqCase)) {
-		allSequences(alphabet(pairs[0], 3), depth, func(ops []op) { yield(seqCase{Ops: ops, Scan: pairs[0][:]}) })
+		allSequences(alphabet(pairs[0], ipsV4), depth, func(ops []op) { yield(seqCase{Ops: ops, Scan: pairs[0][:]}) })
 		for i, p := range pairs {
 			for _, secured := range []bool{false, true} {
 				if i == 0 && !secured {
 					continue // covered by the deeper enumeration above
 				}
 				p := p
-				allSequences(alphabet(p, 3), depth-1, func(ops []op) { yield(seqCase{Ops: ops, Scan: p[:], Secured: secured}) })
+				allSequences(alphabet(p, ipsV4), depth-1, func(ops []op) { yield(seqCase{Ops: ops, Scan: p[:], Secured: secured}) })
 			}
+		}
+		for _, ips := range otherIPs {
+			allSequences(alphabet(pairs[0], ips), depth-1, func(ops []op) { yield(seqCase{Ops: ops, Scan: pairs[0][:]}) })
 		}
 	}, checkSequence, seqNontrivial)
 }
 
-// genOp draws one call over the given names and the first nIPs addresses. With ttls, a registration
-// carries a TTL of its own (past, ahead, far ahead) instead of the per-name default.
-func genOp(t *rapid.T, set []int, nIPs int, ttls bool) op {
+// genOp draws one call over the given names and addresses. With ttls, a registration carries a TTL of
+// its own (past, one nanosecond, ahead, far ahead) instead of the per-name default.
+func genOp(t *rapid.T, set []int, ips []int, ttls bool) op {
 	n := set[rapid.IntRange(0, len(set)-1).Draw(t, "name")]
-	ip := rapid.IntRange(0, nIPs-1).Draw(t, "ip")
+	ip := ips[rapid.IntRange(0, len(ips)-1).Draw(t, "ip")]
 	switch rapid.IntRange(0, 11).Draw(t, "kind") {
 	case 0, 1, 2, 3:
 		o := op{Kind: "reg", Name: n, Type: rapid.IntRange(0, 1).Draw(t, "type"), IP: ip}
 		if ttls {
-			o.TTL = rapid.SampledFrom([]int{0, 0, 1, 2, 3}).Draw(t, "ttl")
+			o.TTL = rapid.SampledFrom([]int{0, 0, 1, 2, 3, 4}).Draw(t, "ttl")
 		}
 		return o
 	case 4, 5:
@@ -282,14 +284,15 @@ func TestSeqRandom(t *testing.T) {
 	vf.Rapid(s, vf.N(5000, 80000), func(t *rapid.T) seqCase {
 		n := rapid.IntRange(20, 200).Draw(t, "len")
 		// 2..6 of the names (few names: long histories per name and large groups; the similar
-		// 16-byte names 5..8 are as likely as the short ones), 3, 6 or all addresses
+		// 16-byte names 5..8 are as likely as the short ones); three IPv4 addresses, the first six,
+		// three IPv6 ones, a mix of IPv4 (both forms) and IPv6, or all addresses
 		all := rapid.Permutation([]int{0, 1, 2, 3, 4, 5, 6, 7, 8}).Draw(t, "names")
 		set := append([]int{}, all[:rapid.IntRange(2, 6).Draw(t, "nnames")]...)
 		sort.Ints(set)
-		nIPs := rapid.SampledFrom([]int{3, 6, 6, len(addrs)}).Draw(t, "nips")
+		ips := rapid.SampledFrom([][]int{ipsV4, ipsSix, ipsSix, ipsV6, ipsMixed, ipsAll}).Draw(t, "ips")
 		ops := make([]op, n)
 		for i := range ops {
-			ops[i] = genOp(t, set, nIPs, true)
+			ops[i] = genOp(t, set, ips, true)
 		}
 		return seqCase{Ops: ops, Scan: set, Secured: rapid.Bool().Draw(t, "secured")}
 	}, func(c seqCase) []vf.Finding {
@@ -315,22 +318,25 @@ type call struct {
 
 var modelNNames = 3
 
-var pmodel = porcupine.Model{
-	Init: func() interface{} { return state{} },
-	Step: func(st, in, out interface{}) (bool, interface{}) {
-		s := st.(state)
-		for _, o := range apply(s, in.(op)) {
+// The model is not deterministic (a sweep of a name whose expiry is undetermined, a registration over a
+// conflict-marked name have several admissible next states for one result): every one of them is
+// followed (power-set construction).
+var pmodel = (&porcupine.NondeterministicModel{
+	Init: func() []interface{} { return []interface{}{state{}} },
+	Step: func(st, in, out interface{}) []interface{} {
+		var next []interface{}
+		for _, o := range apply(st.(state), in.(op)) {
 			if o.Res == out.(result) {
-				return true, o.Next
+				next = append(next, o.Next)
 			}
 		}
-		return false, s
+		return next
 	},
 	Equal: func(a, b interface{}) bool { return a.(state).key() == b.(state).key() },
 	DescribeOperation: func(in, out interface{}) string {
 		return fmt.Sprintf("%s -> %+v", in.(op), out.(result))
 	},
-}
+}).ToModel()
 
 func runProgram(c progCase) (hist []porcupine.Operation, dupInv string) {
 	tbl := nbtns.NewNetBIOSNameServer(c.Secured)
@@ -414,13 +420,17 @@ func TestConcurrentLinearizable(t *testing.T) {
 	vf.Rapid(s, vf.N(150, 600), func(t *rapid.T) progCase {
 		nt := rapid.IntRange(2, 4).Draw(t, "threads")
 		c := progCase{}
-		// most programs fight over one or two names
+		// most programs fight over one or two names; four addresses: IPv4 only, or IPv6 owners next to
+		// one IPv4 address, or one IPv4 address in its three forms. Every registration carries a TTL of
+		// its own, so that a name that is expired at one moment can be live at the next (released and
+		// registered again, refreshed) while a sweep is running.
 		nn := rapid.SampledFrom([]int{1, 2, 2, 3}).Draw(t, "names")
+		ips := rapid.SampledFrom([][]int{{0, 1, 2, 3}, {0, 1, 2, 3}, {5, 16, 17, 0}, {0, 19, 1, 16}}).Draw(t, "ips")
 		for i := 0; i < nt; i++ {
 			k := rapid.IntRange(3, 8).Draw(t, "ops")
 			th := make([]op, k)
 			for j := range th {
-				th[j] = genOp(t, []int{0, 1, 2}[:nn], 4, false)
+				th[j] = genOp(t, []int{0, 1, 2}[:nn], ips, true)
 			}
 			c.Threads = append(c.Threads, th)
 		}
@@ -559,6 +569,95 @@ func TestRaceStress(t *testing.T) {
 		}
 		if _, _, err := tbl.QueryName("KEEP"); err == nil {
 			return []vf.Finding{vf.F("NetBIOSNameServer", "group-not-deleted-after-last-release", "KEEP still present after every registrant released it")}
+		}
+		return nil
+	}, nil)
+}
+
+// a fixed stress around the expiry sweep: sweeper goroutines call CleanExpiredNames in a loop while each
+// worker goroutine registers, releases and re-registers a name that nobody else touches (its own name,
+// its own address; some as a unique name, some as a one-member group). No linearizability check: what
+// a worker may conclude locally, whatever the sweepers and the other workers do:
+//   - at the start of a round its name is absent, so a registration with a valid TTL succeeds (one with
+//     a negative TTL may be refused);
+//   - a name registered with an expiry in the past may or may not have been swept when the worker
+//     releases it: either result, and the name is absent afterwards either way;
+//   - the name is then registered for an hour: from that call until the worker's own release it is an
+//     active, unexpired name that no sweep may remove: Query returns exactly the worker's address,
+//     Refresh and Release by it succeed.
+func TestSweepStress(t *testing.T) {
+	s := vf.Begin(t, P, "sweep-stress")
+	type sc struct {
+		Workers  int  `json:"workers"`
+		Sweepers int  `json:"sweepers"`
+		Rounds   int  `json:"rounds"`
+		Secured  bool `json:"secured,omitempty"`
+	}
+	vf.Enum(s, func(yield func(sc)) {
+		yield(sc{2, 1, vf.N(3000, 40000), false})
+		yield(sc{6, 2, vf.N(1500, 20000), false})
+		yield(sc{12, 3, vf.N(600, 8000), true})
+	}, func(c sc) []vf.Finding {
+		tbl := nbtns.NewNetBIOSNameServer(c.Secured)
+		var wg, sw sync.WaitGroup
+		var bad atomic.Value
+		var done int32
+		fail := func(kind, format string, a ...any) {
+			bad.CompareAndSwap(nil, vf.F("NetBIOSNameServer", kind, format, a...))
+		}
+		for i := 0; i < c.Sweepers; i++ {
+			sw.Add(1)
+			go func() {
+				defer sw.Done()
+				for atomic.LoadInt32(&done) == 0 {
+					tbl.CleanExpiredNames()
+					runtime.Gosched()
+				}
+			}()
+		}
+		for g := 0; g < c.Workers; g++ {
+			wg.Add(1)
+			go func(g int) {
+				defer wg.Done()
+				ip := net.IPv4(10, 2, byte(g), 1).To4()
+				if g%3 == 2 {
+					ip = net.ParseIP(fmt.Sprintf("fe80::%x", g+1))
+				}
+				name := fmt.Sprintf("WORKER-%02d", g)
+				typ := nbtns.NameType(g % 2)
+				for r := 0; r < c.Rounds && bad.Load() == nil; r++ {
+					past := []time.Duration{time.Nanosecond, -time.Hour}[r%2]
+					err := tbl.RegisterName(name, typ, ip, past)
+					if err != nil && past >= 0 {
+						fail("registration-of-absent-name-refused", "Register(%s, %v, %v, %v) = %v although the name was absent (round %d)", name, typ, ip, past, err, r)
+					}
+					registered := err == nil
+					settle()
+					if err := tbl.ReleaseName(name, ip); err == nil && !registered {
+						fail("release-of-absent-name-succeeds", "Release(%s, %v) succeeded although the registration had been refused (round %d)", name, ip, r)
+					}
+					if err := tbl.RegisterName(name, typ, ip, time.Hour); err != nil {
+						fail("registration-of-absent-name-refused", "Register(%s, %v, %v, 1h) = %v after the name had been released or swept (round %d)", name, typ, ip, err, r)
+						continue
+					}
+					owners, qt, err := tbl.QueryName(name)
+					if err != nil || qt != typ || len(owners) != 1 || !owners[0].Equal(ip) {
+						fail("live-name-lost-to-sweep", "Query(%s) = %v, %v, %v right after %v registered it for an hour, with %d goroutines sweeping expired names (round %d)", name, owners, qt, err, ip, c.Sweepers, r)
+					}
+					if err := tbl.RefreshName(name, ip); err != nil {
+						fail("live-name-lost-to-sweep", "Refresh(%s, %v) = %v while %v holds the name for an hour (round %d)", name, ip, err, ip, r)
+					}
+					if err := tbl.ReleaseName(name, ip); err != nil {
+						fail("live-name-lost-to-sweep", "Release(%s, %v) = %v while %v holds the name for an hour (round %d)", name, ip, err, ip, r)
+					}
+				}
+			}(g)
+		}
+		wg.Wait()
+		atomic.StoreInt32(&done, 1)
+		sw.Wait()
+		if v := bad.Load(); v != nil {
+			return []vf.Finding{v.(vf.Finding)}
 		}
 		return nil
 	}, nil)
